@@ -8,7 +8,7 @@ BUILT = {
  "C01": dict(
    technique="exhaustive enumerating generator over all C(52,7) sets + proptest targeted sets/pairs, differential against a from-the-rules best-of-21 reference classifier",
    category="exploration",
-   text="Every one of the 133,784,560 seven-card sets is generated (both tiers) and evaluated in ascending, descending, flush-scan-adversarial and seeded shuffled orders against the class of the best of its 21 five-card subsets under an independent classifier; all 5,040 orders for a sample; 2M/20M hand pairs (shared boards, mirrored hole cards for ties) check ==,<,partial_cmp,cmp against poker order. Exhaustive over sets, sampled over orders.",
+   text="Every one of the 133,784,560 seven-card sets is generated (both tiers) and evaluated in ascending, descending, flush-scan-adversarial and seeded shuffled orders against the class of the best of its 21 five-card subsets under an independent classifier; all 5,040 orders for a sample; 2M/20M hand pairs (shared boards, mirrored hole cards for ties) check ==,<,partial_cmp,cmp against poker order. Long call histories on one thread (forty hands, filler hands, one related hand per first hand, related calls 2^8, 2^16 or 2^24 +-2 calls apart) check that an answer does not depend on earlier calls. Exhaustive over sets, sampled over orders.",
    note="Trusted: the harness's 5-card classifier (two implementations cross-checked on all 2,598,960 hands; 7,462 classes and per-category counts asserted at start-up). Orders: all 7! only for sampled sets.",
    ref="DESIGN.md section 4 (C01)"),
  "C02": dict(
@@ -38,13 +38,13 @@ BUILT = {
  "C06": dict(
    technique="proptest row-pattern generation + exhaustive row sweeps + exhaustive token set, round-trip oracle (format -> parse, bit-identical)",
    category="exploration",
-   text="Ranges built by row-pattern construction over the 169 rank-pair cells (complete at up to three weights, partial cells, weights incl. arbitrary f32 bit patterns in [0,1] and subnormals), every absent/a/b pattern of every row with <= 7 cells (thorough: every row, 3.2M ranges), and every well-formed token x weights are formatted and parsed back; the result must be equal with bit-identical weights. In two of three cases a formatting call of another range into a sink that fails after a few bytes precedes on the same thread.",
+   text="Ranges built by row-pattern construction over the 169 rank-pair cells (complete at up to three weights, partial cells, weights incl. arbitrary f32 bit patterns in [0,1] and subnormals), every absent/a/b pattern of every row with <= 7 cells (thorough: every row, 3.2M ranges), and every well-formed token x weights are formatted and parsed back; the result must be equal with bit-identical weights. In two of three cases a formatting call of another range into a sink that fails after a few bytes precedes on the same thread. Long formatting histories (about 2^8 / 2^16 other ranges formatted between a range and its one-combo neighbour) must still round-trip.",
    note="-0.0 and NaN are outside the weight domain. The 2^1326 space is sampled except for the row sweeps.",
    ref="DESIGN.md section 4 (C06)"),
  "C07": dict(
    technique="exhaustive enumerating generator over all C(52,7) sets + directed category-boundary cases, oracle = category of the reference best-of-21 class",
    category="exploration",
-   text="All 133,784,560 sets (hence all 4,824 reachable power indexes) plus the strongest and weakest reachable hand of every category are generated; the Debug name of hand_type() must equal the category of the best five-card hand under the independent classifier; call histories (every reachable index right after a call for every category's boundary hands) check that the answer does not depend on the previous call.",
+   text="All 133,784,560 sets (hence all 4,824 reachable power indexes) plus the strongest and weakest reachable hand of every category are generated; the Debug name of hand_type() must equal the category of the best five-card hand under the independent classifier; call histories (every reachable index right after a call for every category's boundary hands) check that the answer does not depend on the previous call. Long histories (related calls 2^8, 2^16, 2^24 +-2 calls apart) extend that to counters that wrap.",
    note="Trusted: the harness's 5-card classifier (self-checked). The category enum is only reachable through its Debug output.",
    ref="DESIGN.md section 4 (C07)"),
  "C08": dict(
@@ -104,7 +104,7 @@ BUILT = {
  "C17": dict(
    technique="proptest model-based construction histories + exhaustive row sweeps, canonical-form oracle (history independence + maximal-run structure via an independent tokenizer)",
    category="exploration",
-   text="For generated target ranges 5-7 construction histories (permuted insertion, overwritten wrong weights, duplicates, capacity-changing repeats, parse of own text, parse of a shuffled non-canonical text with a superseded token, collection from bare pairs) must give equal ranges and byte-identical text; the text is read by the model's tokenizer and its rank-pair tokens must correspond one-to-one, in row order, to the model's maximal equal-weight runs, followed by single-combo tokens whose set equals the leftovers. Formatting calls cut short by a failing sink precede some of the compared histories.",
+   text="For generated target ranges 5-7 construction histories (permuted insertion, overwritten wrong weights, duplicates, capacity-changing repeats, parse of own text, parse of a shuffled non-canonical text with a superseded token, collection from bare pairs) must give equal ranges and byte-identical text; the text is read by the model's tokenizer and its rank-pair tokens must correspond one-to-one, in row order, to the model's maximal equal-weight runs, followed by single-combo tokens whose set equals the leftovers. Formatting calls cut short by a failing sink precede some of the compared histories. Long formatting histories (about 2^8 / 2^16 calls between two neighbouring ranges) must reproduce the first text.",
    note="Duplicate leftover tokens for partial pocket pairs are tolerated (pinned by a repository test). Histories are sampled.",
    ref="DESIGN.md section 4 (C17)"),
 }
